@@ -505,7 +505,7 @@ def _str_consts(node):
           "category the reader assigns has a branch in the writer's compose_instances (otherwise instances vanish on write); B4'' EBLIF.* keys "
           "stored by the reader minus keys read by the writer equals the reviewed table; B1'' every .model written is followed by .end on all "
           "paths; B6 the .conn wire merge iterates over a snapshot of the pin lists it empties; hand-maintained position counters advance once "
-          "per element; B7 a bus grown on demand to hold bit I is then read at bit I; B8 the (name, index) pair a bit of a bus is stored under comes from one parse of one token.")
+          "per element; B7 a bus grown on demand to hold bit I is then read at bit I; B8 the (name, index) pair a bit of a bus is stored under comes from one parse of one token; B5b per category, the directive the writer emits under the flags it passes is the directive the reader turns into that category.")
 def check_c18(ctx, R):
     P = ctx.P
     R.rule("B2''", "directive agreement")
